@@ -25,6 +25,14 @@ import (
 var verifDir = "/verif"
 var repoDir = "/repo"
 
+// srcDir: where the library sources are read from. Normally /repo itself. ZOGMC_SRC points it at a
+// scratch worktree with the same file set (used only to evaluate seeded changes in parallel; the
+// registered commands never set it).
+var srcDir = ""
+
+// outDir: where evidence/ and replays/ are written (normally /verif).
+var outDir = ""
+
 func goEnv() []string {
 	env := os.Environ()
 	env = append(env, "GOFLAGS=-mod=mod", "GOPROXY=off", "GOSUMDB=off", "GOTOOLCHAIN=local", "CGO_ENABLED=0")
@@ -43,6 +51,14 @@ func main() {
 	}
 	if d := os.Getenv("ZOGMC_REPO"); d != "" {
 		repoDir = d
+	}
+	srcDir = repoDir
+	if d := os.Getenv("ZOGMC_SRC"); d != "" {
+		srcDir = d
+	}
+	outDir = verifDir
+	if d := os.Getenv("ZOGMC_OUT"); d != "" {
+		outDir = d
 	}
 	if len(os.Args) < 2 {
 		usage()
@@ -106,13 +122,13 @@ type worker struct {
 func repoHash() string {
 	h := sha256.New()
 	var files []string
-	filepath.Walk(repoDir, func(path string, info os.FileInfo, err error) error {
+	filepath.Walk(srcDir, func(path string, info os.FileInfo, err error) error {
 		if err != nil {
 			return nil
 		}
 		if info.IsDir() {
 			b := info.Name()
-			if path != repoDir && (strings.HasPrefix(b, ".") || b == "docs" || b == "node_modules") {
+			if path != srcDir && (strings.HasPrefix(b, ".") || b == "docs" || b == "node_modules") {
 				return filepath.SkipDir
 			}
 			return nil
@@ -169,7 +185,7 @@ func ensureWorker() *worker {
 	if _, err := os.Stat(filepath.Join(dir, "overlay.json")); err != nil {
 		tmp := fmt.Sprintf("%s.tmp%d", dir, os.Getpid())
 		os.RemoveAll(tmp)
-		out, err := run(goEnv(), verifDir, filepath.Join(verifDir, "bin/zog-instr"), "-repo", repoDir, "-out", tmp, "-shim", filepath.Join(verifDir, "zverif/zverif.go"))
+		out, err := run(goEnv(), verifDir, filepath.Join(verifDir, "bin/zog-instr"), "-repo", srcDir, "-keyroot", repoDir, "-out", tmp, "-shim", filepath.Join(verifDir, "zverif/zverif.go"))
 		if err != nil {
 			// the tree does not type-check: that is a build failure of the
 			// code under test, not a property violation
@@ -461,7 +477,7 @@ func check(id, tier string) int {
 	exit := 0
 	var knownSeen []string
 	newViol := 0
-	os.MkdirAll(filepath.Join(verifDir, "replays"), 0o755)
+	os.MkdirAll(filepath.Join(outDir, "replays"), 0o755)
 	for _, k := range keys {
 		v := viols[k]
 		known := false
@@ -477,7 +493,7 @@ func check(id, tier string) int {
 		}
 		newViol++
 		hs := sha256.Sum256([]byte(k))
-		rp := filepath.Join(verifDir, "replays", fmt.Sprintf("%s-%s.json", id, hex.EncodeToString(hs[:5])))
+		rp := filepath.Join(outDir, "replays", fmt.Sprintf("%s-%s.json", id, hex.EncodeToString(hs[:5])))
 		rf := map[string]any{"property": id, "tier": tier, "item": v.Item, "choices": v.Choices, "key": k, "what": v.V.What, "expected": v.V.Expected, "observed": v.V.Observed, "labels": v.Labels, "notes": v.Notes, "count": v.Count,
 			"how_to_replay": "cd /verif && bin/zogmc replay " + rp}
 		rb, _ := json.MarshalIndent(rf, "", " ")
@@ -541,8 +557,8 @@ func check(id, tier string) int {
 		"violations":  newViol,
 	}
 	eb, _ := json.MarshalIndent(ev, "", " ")
-	os.MkdirAll(filepath.Join(verifDir, "evidence"), 0o755)
-	if err := os.WriteFile(filepath.Join(verifDir, "evidence", id+".json"), eb, 0o644); err != nil {
+	os.MkdirAll(filepath.Join(outDir, "evidence"), 0o755)
+	if err := os.WriteFile(filepath.Join(outDir, "evidence", id+".json"), eb, 0o644); err != nil {
 		harnessErr("writing evidence: %v", err)
 	}
 	fmt.Printf("%s %s: executions=%d states=%d transitions=%d traces=%d distinct_nontrivial=%d items=%d/%d exhaustive=%v known=%d new=%d wall=%.1fs\n",
@@ -603,8 +619,8 @@ func racePass(tier string, viols map[string]*FoundViolation) map[string]any {
 				frames = append(frames, strings.TrimSuffix(strings.TrimPrefix(l, "github.com/Oudwins/zog"), "()"))
 			}
 		}
-		os.MkdirAll(filepath.Join(verifDir, "replays"), 0o755)
-		rp := filepath.Join(verifDir, "replays", "C08-race-report.txt")
+		os.MkdirAll(filepath.Join(outDir, "replays"), 0o755)
+		rp := filepath.Join(outDir, "replays", "C08-race-report.txt")
 		os.WriteFile(rp, []byte(text), 0o644)
 		fv := &FoundViolation{Item: "racepass", Count: int64(n)}
 		fv.V.Key = "C08:race:" + strings.Join(frames, "|")
